@@ -738,7 +738,17 @@ class Engine:
     def _save_hints(self):
         os.makedirs(os.path.join(VERIF, 'hints'), exist_ok=True)
         p = os.path.join(VERIF, 'hints', self.prop_id + '.json')
-        json.dump(self.hints, open(p, 'w'), indent=1, sort_keys=True)
+        cur = {}
+        if os.path.exists(p):      # merge: another run of the same property may have saved entries meanwhile
+            try:
+                cur = json.load(open(p))
+            except Exception:
+                cur = {}
+        ran = set(h.name for h in self.harnesses)
+        for k, v in self.hints.items():
+            if k in ran or k not in cur:
+                cur[k] = v
+        json.dump(cur, open(p, 'w'), indent=1, sort_keys=True)
 
     # -- building ---------------------------------------------------------
     def build_units(self, h):
